@@ -351,6 +351,15 @@ class Run:
                     do_call(qc, spec)
                     if k in qc.__dict__ and (keep is None or id(qc.__dict__[k]) != keep[0]):
                         out.append(dict(key=k, what='%s: value of the attribute %s it sets depends on the calls made before (%s)' % (m, k, [s['m'] for s in prefix])))
+        if m == 'to_vmec' and sa == 'ok' and 'params' not in spec.get('kw', {}):
+            # nothing may leak between calls through the mutable default argument: a default call must equal the same call with params={} spelled out
+            qd = build_src(src)
+            spec2 = dict(spec); spec2['kw'] = dict(spec.get('kw', {}), params={})
+            sd, rd = do_call(qd, spec2)
+            for k in ('RBC', 'ZBS', 'RBS', 'ZBC'):
+                if sd == 'ok' and k in qa.__dict__ and k in qd.__dict__ and canon(qa.__dict__[k]) != canon(qd.__dict__[k]):
+                    out.append(dict(key='to_vmec:default-params', what='to_vmec with the default params gives a different %s than the same call with params={} (state kept in the default dict from an earlier call)' % k))
+                    break
         for v in out:
             v.update(src)
             v['sequence'] = prefix + [spec]
@@ -435,7 +444,7 @@ def main():
                 order = ['r1', 'r2', 'r3'][(gen_count + a.seed) % 3]
                 gen_count += 1
                 try:
-                    cfg, q = gen_admissible(rng, order=order, nphi=int(2 * rng.integers(7, 16) + 1))
+                    cfg, q = gen_admissible(rng, order=order, nphi=int(2 * rng.integers(7, 16) + 1), history=False)   # C17 starts from a FRESH object by definition
                 except RuntimeError:
                     i += 1
                     continue
